@@ -7,7 +7,7 @@ RULE = ('real asconcrypt/asconsum binaries (release build) run as processes in p
         'Tamper: a bit flip at every byte (large files: header, SIV block, every 97th byte, tail), every truncation length, appended '
         'bytes, wrong passwords -> non-zero exit and no output file.  I/O faults injected at the system-call level with strace '
         '(each confirmed by its (INJECTED) marker): the k-th write to the output for EVERY k -> ENOSPC, the k-th read of the input for '
-        'every k -> EIO, open of the output -> EACCES, getrandom -> ENOSYS (1st, 2nd call): non-zero exit and no partial output; '
+        'every k -> EIO, open of the output -> EACCES, the random source unavailable (EVERY getrandom call -> ENOSYS and /dev/urandom, /dev/random unopenable through an LD_PRELOAD shim): non-zero exit and no partial output; a single refused getrandom call (1st, 2nd): fail closed or succeed with an output that decrypts; '
         'EINTR on any of those calls: must succeed with identical content; -g KEYFILE with failing write / random source.  asconsum: '
         '-h -a -x -y and default over 15 files per command line and stdin vs reference digests and the exact output format; -c on '
         'unmodified / CRLF / upper-case / modified / extended / missing / unreadable (EIO) files, wrong digit, malformed and empty '
